@@ -114,6 +114,14 @@ package memmetrics
 //@   ensures same_contents: len(result.values) == len(c.values) && (forall i int :: 0 <= i && i < len(c.values) ==> result.values[i] == c.values[i]) && result.resolution == c.resolution && result.lastUpdated == c.lastUpdated && result.lastBucket == c.lastBucket
 //@   ensures original_keeps_its_window: cleanAt(c, lastclock) && RC(c) && cfgOK(c)
 
+// Append adds what the other counter holds within its own window: the source is expired (Count) before it is read.
+//@ func (*RollingCounter).Append
+//@   props C17 C18
+//@   assume clock_stable
+//@   requires cfgOK(c) && RC(c) && cfgOK(o) && RC(o) && c != o && backing(c.values) != backing(o.values) && lastclock >= (len(c.values) + 1) * c.resolution && lastclock >= (len(o.values) + 1) * o.resolution
+//@   modifies elems(c.values), elems(o.values), c.lastUpdated, c.countedBuckets, c.lastBucket, RollingCounter.gsum, c.tclean, o.tclean
+//@   ensures source_is_expired_before_it_is_read: calls(Count) == 1 && callarg(Count, 0, 0) == o && calls(Inc) == 1 && callarg(Inc, 0, 0) == c && callarg(Inc, 0, 1) == callres(Count, 0, 0) && before(Count, Inc)
+
 //@ type RatioCounter
 //@   extsync
 //@   mutators Ratio IncA IncB Reset CountA CountB ProcessedCount
@@ -151,6 +159,7 @@ package memmetrics
 //@ type RTMetrics
 //@   immutable total netErrors newCounter newHist statusCodesLock histogramLock
 //@   guarded_by statusCodesLock: statusCodes
+//@   insert_only statusCodes
 //@   protects statusCodesLock: total netErrors
 //@   guarded_by histogramLock: histogram
 //@   guards statusCodesLock: RollingCounter.lastUpdated RollingCounter.countedBuckets RollingCounter.lastBucket RollingCounter.values RollingCounter.gsum RollingCounter.tclean elems(int)
